@@ -13,8 +13,9 @@
     changes coq/gen/Guards.v, and the corresponding statement below stops being provable.
     Only statements here; proofs are in proofs/GuardsProofs.v. *)
 From Coq Require Import ZArith List Bool.
-From Verif Require Import Base Cal Tables Period Engine Guards GuardsSem.
-From Verif Require Import GuardsProofs.
+From Verif Require Import Base Cal Tables Period Engine GuardsTypes Guards GuardsSem.
+From Verif Require Import GuardsPeriod GuardsPeriodSem.
+From Verif Require Import GuardsProofs GuardsPeriodProofs.
 Import ListNotations.
 Open Scope Z_scope.
 
@@ -93,6 +94,31 @@ Theorem source_option_dispatch_plain_iff_not_sequence : forall has_add has_divid
   gen_option_dispatch has_add has_divide is_sequence = DPlain <-> is_sequence = false.
 Proof. exact gen_option_dispatch_plain_iff. Qed.
 Print Assumptions source_option_dispatch_plain_iff_not_sequence.
+
+(** ** Period.get_subperiods: the weight test and the per-unit dispatch
+       (coq/gen/GuardsPeriod.v, from periods/period_.py) *)
+
+Theorem source_subperiods_guard : forall pu u,
+  gen_subperiods_guard pu u = (unit_weight pu <? unit_weight u).
+Proof. exact gen_subperiods_guard_bool. Qed.
+Print Assumptions source_subperiods_guard.
+
+Theorem source_subperiods_choice : forall u,
+  gen_subperiods_choice u
+  = match u with
+    | Year => Some (NThisYear, Year, SSize)
+    | Month => Some (NFirstMonth, Month, SInMonths)
+    | Day => Some (NFirstDay, Day, SInDays)
+    | Week => Some (NFirstWeek, Week, SInWeeks)
+    | Weekday => Some (NFirstWeekday, Weekday, SInWeekdays)
+    | Eternity => None
+    end.
+Proof. exact gen_subperiods_choice_table. Qed.
+Print Assumptions source_subperiods_choice.
+
+Theorem source_subperiods : forall p u, subperiods p u = src_subperiods p u.
+Proof. exact subperiods_is_source. Qed.
+Print Assumptions source_subperiods.
 
 (** ** Non-vacuity: the regenerated guards do raise and do accept *)
 
